@@ -270,6 +270,7 @@ func runC05(c *core.Ctx) {
 	// ---- R7 (shared with C02-R3): a write-side failure reaches Close: the sender's recover releases, then closes
 	c.Rule("R7", "sender recover path: release the flag, then Close with the exception (a write-side transport failure closes the channel)", 1)
 	runSenderRecover(c, e, "R7")
+	ruleFailedSenderReleasesCloser(c, e, "R7")
 }
 
 func runC05R4to6(c *core.Ctx, e *ev) {
